@@ -59,7 +59,8 @@ def observe(doc):
 
 # ------------------------------------------------------------------ generation
 TITLE_WORDS = ["Stew", "Bread", "for", "to", "serve", "serves", "makes", "make", "serving", "2", "10", "Food", "&", "drink", "FOR", "To", "SERVES",
-               "forty", "before", "x", "03", "for2", "Tom's", "100%", "<b>", "\"q\"", "café", "Serve", "MAKES", "a_b", "*em*", "`code`"]
+               "forty", "before", "x", "03", "for2", "Tom's", "100%", "<b>", "\"q\"", "café", "Serve", "MAKES", "a_b", "*em*", "`code`",
+               "\\#1", "Fish \\& chips", "a\\*b"]
 PHRASES = ["to serve", "to make", "serves", "for", "makes", "serving", "serve", "to serves", "To Serve", "FOR", "Makes", "to  serve", "to\tmake"]
 PROSE = ["Some text.", "Mix {2} eggs with {1/2} cup of milk.", "Plain *emphasis* and `code {3}` span.", "A line with 50% and #hash & <b>raw</b> html.",
          "Use {1 1/2} tsp \\{not scaled\\} of salt{}.", "Escaped \\{ brace and {0.5} litres.", "Line one\nline two {3} continues.",
@@ -160,7 +161,7 @@ def gen_doc(rng, with_title=None, descs=None, fault=None, simple=False):
                 elif k < 0.7:
                     doc.add(["> quoted {3} text", ""])
                 elif k < 0.8:
-                    doc.add(["```python", "x = {1}", "```", ""])
+                    doc.add(["```" + rng.choice(["python", "python", "recipes", "recipe-grid", "new-recipes", "Recipe", "norecipe", ""]), "x = {1}", "```", ""])
                 elif k < 0.9:
                     doc.add(["<div>raw {html}</div>", ""])
                 else:
